@@ -152,22 +152,28 @@ Proof.
 Qed.
 
 (* 4. rejected  <->  adjusted p-value <= alpha, when `adjust` is consistent and alpha < 1 *)
-Lemma up_rejected_iff_padj alpha i l : alpha < 1 -> (forall j p, (i <= j < i + length l)%nat -> 0 < Tup j p) ->
-  (forall j p, (i <= j < i + length l)%nat -> (Aup j p <= alpha <-> p <= Tup j p)) -> StronglySorted desc l ->
+Lemma Forall_firstn_gen {X} (Q : X -> Prop) n (l : list X) : Forall Q l -> Forall Q (firstn n l).
+Proof. revert n. induction l as [|x t IH]; intros n H; destruct n; cbn; try constructor; inversion H; subst; auto. Qed.
+
+(* P: what is known about the p-values of the family (e.g. that they lie in [0, 1]) *)
+Lemma up_rejected_iff_padj (P : R -> Prop) alpha i l : alpha < 1 -> (forall j p, (i <= j < i + length l)%nat -> 0 < Tup j p) ->
+  (forall j p, (i <= j < i + length l)%nat -> P p -> (Aup j p <= alpha <-> p <= Tup j p)) ->
+  Forall (fun x => P (snd x)) l -> StronglySorted desc l ->
   forall t idx pa aa rj, nth_error (up_spec 1 0 i l) t = Some (idx, (pa, aa, rj)) ->
   (rj = true <-> pa <= alpha).
 Proof.
-  intros Ha HT Hc Hs t idx pa aa rj H.
+  intros Ha HT Hc HP Hs t idx pa aa rj H.
   rewrite (up_rejection 1 i l HT Hs _ _ _ _ _ H), (up_padj _ _ _ _ _ _ _ _ _ H).
   rewrite rmin_list_le_iff.
-  assert (G : forall k j, (i <= j)%nat -> (j + length k <= i + length l)%nat ->
+  assert (G : forall k j, (i <= j)%nat -> (j + length k <= i + length l)%nat -> Forall (fun x => P (snd x)) k ->
               (anyhit j k = true <-> Exists (fun x => x <= alpha) (avals j k))).
-  { induction k as [|[ix p] k IHk]; intros j Hj1 Hj2; cbn [anyhit avals].
+  { induction k as [|[ix p] k IHk]; intros j Hj1 Hj2 HPk; cbn [anyhit avals].
     - split; [discriminate | intros E; inversion E].
-    - cbn [length] in Hj2. rewrite orb_true_iff, IHk, nleb_true, <- Hc by lia. split.
+    - cbn [length] in Hj2. inversion HPk as [|? ? HPp HPk']; subst. cbn [snd] in HPp.
+      rewrite orb_true_iff, IHk, nleb_true, <- (Hc j p) by (try lia; assumption). split.
       + intros [E|E]; [left; exact E | right; exact E].
       + intros E. inversion E; subst; [left; assumption | right; assumption]. }
-  rewrite G; [|lia|rewrite firstn_length; lia].
+  rewrite G; [|lia|rewrite firstn_length; lia|apply Forall_firstn_gen; exact HP].
   split; [intros E; right; exact E | intros [E|E]; [lra | exact E]].
 Qed.
 End StepUp.
@@ -300,22 +306,24 @@ Proof.
     + apply (IH _ _ HT' Hs' _ _ _ _ _ H).
 Qed.
 
-Lemma dn_rejected_iff_padj alpha k l : 0 <= alpha -> (forall j p, (k <= j < k + length l)%nat -> Tdn j p < 1) ->
-  (forall j p, (k <= j < k + length l)%nat -> (Adn j p <= alpha <-> p <= Tdn j p)) -> StronglySorted asc l ->
+Lemma dn_rejected_iff_padj (P : R -> Prop) alpha k l : 0 <= alpha -> (forall j p, (k <= j < k + length l)%nat -> Tdn j p < 1) ->
+  (forall j p, (k <= j < k + length l)%nat -> P p -> (Adn j p <= alpha <-> p <= Tdn j p)) ->
+  Forall (fun x => P (snd x)) l -> StronglySorted asc l ->
   forall t idx pa aa rj, nth_error (dn_spec 0 1 k l) t = Some (idx, (pa, aa, rj)) ->
   (rj = true <-> pa <= alpha).
 Proof.
-  intros Ha HT Hc Hs t idx pa aa rj H.
+  intros Ha HT Hc HP Hs t idx pa aa rj H.
   rewrite (dn_rejection 0 k l HT Hs _ _ _ _ _ H), (dn_padj _ _ _ _ _ _ _ _ _ H).
   rewrite rmax_list_le_iff.
-  assert (G : forall q j, (k <= j)%nat -> (j + length q <= k + length l)%nat ->
+  assert (G : forall q j, (k <= j)%nat -> (j + length q <= k + length l)%nat -> Forall (fun x => P (snd x)) q ->
               (allhit j q = true <-> Forall (fun x => x <= alpha) (dvals j q))).
-  { induction q as [|[ix p] q IHq]; intros j Hj1 Hj2; cbn [allhit dvals].
+  { induction q as [|[ix p] q IHq]; intros j Hj1 Hj2 HPq; cbn [allhit dvals].
     - split; [constructor | reflexivity].
-    - cbn [length] in Hj2. rewrite andb_true_iff, IHq, nleb_true, <- Hc by lia. split.
+    - cbn [length] in Hj2. inversion HPq as [|? ? HPp HPq']; subst. cbn [snd] in HPp.
+      rewrite andb_true_iff, IHq, nleb_true, <- (Hc j p) by (try lia; assumption). split.
       + intros [E1 E2]. constructor; assumption.
       + intros E. inversion E; subst. split; assumption. }
-  rewrite G; [|lia|rewrite firstn_length; lia].
+  rewrite G; [|lia|rewrite firstn_length; lia|apply Forall_firstn_gen; exact HP].
   split; [intros E; split; [exact Ha | exact E] | intros [_ E]; exact E].
 Qed.
 End StepDown.
@@ -379,6 +387,60 @@ Proof.
   assert (0 < / c) by (apply Rinv_0_lt_compat; lra).
   split; [apply Rmult_lt_0_compat; lra|].
   apply Rmult_lt_reg_r with c; [lra|]. replace (alpha / c * c) with alpha by (field; lra). lra.
+Qed.
+
+(* Sidak: coef = m - k + 1;  1 - (1 - p)^coef  and  1 - (1 - alpha)^(1/coef) *)
+Lemma sidak_closed_form m p k :
+  sidak_adjust (mk_sidak alpha m) p k = (1 - nrpow (1 - p) (m - k + 1), 1 - nrpow (1 - alpha) (1 / (m - k + 1))).
+Proof. reflexivity. Qed.
+Lemma Rpower_unit x y : 0 < x < 1 -> 0 < y -> 0 < Rpower x y < 1.
+Proof.
+  intros Hx Hy. unfold Rpower. split; [apply exp_pos|]. rewrite <- exp_0. apply exp_increasing.
+  assert (ln x < 0) by (rewrite <- ln_1; apply ln_increasing; lra). nra.
+Qed.
+Lemma Rpower_inv_exp x c : 0 < x -> c <> 0 -> Rpower (Rpower x c) (1 / c) = x.
+Proof. intros Hx Hc. rewrite Rpower_mult. replace (c * (1 / c)) with 1 by (field; exact Hc). apply Rpower_1. exact Hx. Qed.
+Lemma Rpower_exp_inv x c : 0 < x -> c <> 0 -> Rpower (Rpower x (1 / c)) c = x.
+Proof. intros Hx Hc. rewrite Rpower_mult. replace (1 / c * c) with 1 by (field; exact Hc). apply Rpower_1. exact Hx. Qed.
+
+Lemma sidak_threshold m p k : 1 <= m - k + 1 -> 0 < snd (sidak_adjust (mk_sidak alpha m) p k) < 1.
+Proof.
+  intros Hc. rewrite sidak_closed_form. cbn [snd]. set (c := m - k + 1) in *.
+  unfold nrpow. destruct (Req_EM_T (1 - alpha) 0) as [E|_]; [lra|].
+  assert (0 < 1 / c) by (apply Rdiv_lt_0_compat; lra).
+  pose proof (Rpower_unit (1 - alpha) (1 / c) ltac:(lra) H). lra.
+Qed.
+Lemma sidak_consistent m p k : 1 <= m - k + 1 -> 0 <= p <= 1 ->
+  (fst (sidak_adjust (mk_sidak alpha m) p k) <= alpha <-> p <= snd (sidak_adjust (mk_sidak alpha m) p k)).
+Proof.
+  intros Hc Hp. pose proof (sidak_threshold m p k Hc) as HT. rewrite sidak_closed_form in *. cbn [fst snd] in *.
+  set (c := m - k + 1) in *. assert (Hc0 : c <> 0) by lra. assert (Hic : 0 < 1 / c) by (apply Rdiv_lt_0_compat; lra).
+  unfold nrpow in *. destruct (Req_EM_T (1 - alpha) 0) as [E|_]; [lra|].
+  destruct (Req_EM_T (1 - p) 0) as [E|E].
+  - (* p = 1 *) destruct (Req_EM_T c 0); [contradiction|]. split; intros H; lra.
+  - assert (Hx : 0 < 1 - p) by lra. assert (Hxa : 0 < 1 - alpha) by lra. split; intros H.
+    + assert (H1 : 1 - alpha <= Rpower (1 - p) c) by lra.
+      pose proof (Rle_Rpower_l (1 - alpha) (Rpower (1 - p) c) (1 / c) ltac:(lra) ltac:(lra)) as H2.
+      rewrite (Rpower_inv_exp (1 - p) c Hx Hc0) in H2. lra.
+    + assert (H1 : Rpower (1 - alpha) (1 / c) <= 1 - p) by lra.
+      assert (Hpos : 0 < Rpower (1 - alpha) (1 / c)) by (unfold Rpower; apply exp_pos).
+      pose proof (Rle_Rpower_l (Rpower (1 - alpha) (1 / c)) (1 - p) c ltac:(lra) ltac:(lra)) as H2.
+      rewrite (Rpower_exp_inv (1 - alpha) c Hxa Hc0) in H2. lra.
+Qed.
+(* for a fixed p-value the Sidak-adjusted value grows with the coefficient *)
+Lemma sidak_A_mono m p k k' : 1 <= m - k' + 1 -> k' <= k -> 0 <= p ->
+  fst (sidak_adjust (mk_sidak alpha m) p k) <= fst (sidak_adjust (mk_sidak alpha m) p k').
+Proof.
+  intros Hc Hk Hp. rewrite !sidak_closed_form. cbn [fst]. unfold nrpow.
+  destruct (Req_EM_T (1 - p) 0) as [E|E].
+  - destruct (Req_EM_T (m - k + 1) 0), (Req_EM_T (m - k' + 1) 0); lra.
+  - unfold Rpower. assert (Hl : ln (1 - p) <= 0).
+    { destruct (Rlt_dec 0 (1 - p)) as [Hx|Hx].
+      - destruct (Req_dec (1 - p) 1) as [E1|E1]; [rewrite E1, ln_1; lra|].
+        left. rewrite <- ln_1. apply ln_increasing; lra.
+      - unfold ln. destruct (Rlt_dec 0 (1 - p)); [contradiction | lra]. }
+    assert ((m - k' + 1) * ln (1 - p) <= (m - k + 1) * ln (1 - p)) by nra.
+    destruct H as [H|H]; [apply exp_increasing in H; lra | rewrite H; lra].
 Qed.
 End Corrections.
 
@@ -479,9 +541,10 @@ Proof.
   cbn [fst snd].
   assert (Hk : forall j', (0 <= j' < 0 + length (sorted_desc ps))%nat -> 0 < INR (length ps) - INR j').
   { intros j' Hj'. rewrite sorted_desc_length in Hj'. rewrite <- minus_INR by lia. apply lt_0_INR. lia. }
-  eapply (up_rejected_iff_padj adj (INR (length ps)) alpha 0 (sorted_desc ps)); [lra | | | apply sorted_desc_sorted | exact Ht].
+  eapply (up_rejected_iff_padj adj (INR (length ps)) (fun _ => True) alpha 0 (sorted_desc ps));
+    [lra | | | apply Forall_forall; intros; exact I | apply sorted_desc_sorted | exact Ht].
   - intros j' p Hj'. apply bh_threshold_pos; [lra | exact Hm | apply Hk; exact Hj'].
-  - intros j' p Hj'. apply bh_consistent; [exact Ha | exact Hm | apply Hk; exact Hj'].
+  - intros j' p Hj' _. apply bh_consistent; [exact Ha | exact Hm | apply Hk; exact Hj'].
 Qed.
 
 (* Hochberg with Bonferroni: coef = m - (m - j) + 1 = j + 1 *)
@@ -494,9 +557,10 @@ Proof.
   cbn [fst snd].
   assert (Hc : forall j' : nat, 1 <= INR (length ps) - (INR (length ps) - INR j') + 1).
   { intros j'. pose proof (pos_INR j'). lra. }
-  eapply (up_rejected_iff_padj adj (INR (length ps)) alpha 0 (sorted_desc ps)); [lra | | | apply sorted_desc_sorted | exact Ht].
+  eapply (up_rejected_iff_padj adj (INR (length ps)) (fun _ => True) alpha 0 (sorted_desc ps));
+    [lra | | | apply Forall_forall; intros; exact I | apply sorted_desc_sorted | exact Ht].
   - intros j' p _. apply (bonf_threshold alpha Ha). apply Hc.
-  - intros j' p _. apply (bonf_consistent alpha Ha). pose proof (Hc j'). lra.
+  - intros j' p _ _. apply (bonf_consistent alpha Ha). pose proof (Hc j'). lra.
 Qed.
 
 (* Holm with Bonferroni: coef = m - k + 1 >= 1 for k = 1..m *)
@@ -510,7 +574,51 @@ Proof.
   assert (Hc : forall j', (1 <= j' < 1 + length (sorted_asc ps))%nat -> 1 <= INR (length ps) - INR j' + 1).
   { intros j' Hj'. rewrite sorted_asc_length in Hj'. rewrite <- minus_INR by lia.
     assert (0 <= INR (length ps - j')) by apply pos_INR. lra. }
-  eapply (dn_rejected_iff_padj adj alpha 1 (sorted_asc ps)); [lra | | | apply sorted_asc_sorted | exact Ht].
+  eapply (dn_rejected_iff_padj adj (fun _ => True) alpha 1 (sorted_asc ps));
+    [lra | | | apply Forall_forall; intros; exact I | apply sorted_asc_sorted | exact Ht].
   - intros j' p Hj'. apply (bonf_threshold alpha Ha). apply Hc. exact Hj'.
-  - intros j' p Hj'. apply (bonf_consistent alpha Ha). pose proof (Hc j' Hj'). lra.
+  - intros j' p Hj' _. apply (bonf_consistent alpha Ha). pose proof (Hc j' Hj'). lra.
+Qed.
+
+(* Sidak: the equivalence needs the p-values to be probabilities *)
+Definition unit_p (p : R) : Prop := 0 <= p <= 1.
+Lemma sorted_desc_unit ps : Forall unit_p ps -> Forall (fun x => unit_p (snd x)) (sorted_desc ps).
+Proof.
+  intros H. apply Forall_forall. intros [j p] Hin. cbn [snd]. apply sorted_desc_in in Hin.
+  rewrite Forall_forall in H. apply H. eapply nth_error_In. exact Hin.
+Qed.
+Lemma sorted_asc_unit ps : Forall unit_p ps -> Forall (fun x => unit_p (snd x)) (sorted_asc ps).
+Proof.
+  intros H. apply Forall_forall. intros [j p] Hin. cbn [snd]. apply sorted_asc_in in Hin.
+  rewrite Forall_forall in H. apply H. eapply nth_error_In. exact Hin.
+Qed.
+
+Lemma hochberg_sidak_rejected_iff_padj_input alpha ps j : 0 < alpha < 1 -> Forall unit_p ps -> (j < length ps)%nat ->
+  let o := nth j (hochberg_stepup (sidak_adjust (mk_sidak alpha (INR (length ps)))) ps) dflt in
+  snd o = true <-> fst (fst o) <= alpha.
+Proof.
+  intros Ha Hu Hj o. set (adj := sidak_adjust (mk_sidak alpha (INR (length ps)))) in *.
+  destruct (stepup_at adj ps j Hj) as [t Ht]. fold o in Ht. destruct o as [[pa aa] rj].
+  cbn [fst snd].
+  assert (Hc : forall j' : nat, 1 <= INR (length ps) - (INR (length ps) - INR j') + 1).
+  { intros j'. pose proof (pos_INR j'). lra. }
+  eapply (up_rejected_iff_padj adj (INR (length ps)) unit_p alpha 0 (sorted_desc ps));
+    [lra | | | apply sorted_desc_unit; exact Hu | apply sorted_desc_sorted | exact Ht].
+  - intros j' p _. apply (sidak_threshold alpha Ha). apply Hc.
+  - intros j' p _ Hp. apply (sidak_consistent alpha Ha); [apply Hc | exact Hp].
+Qed.
+Lemma holm_sidak_rejected_iff_padj_input alpha ps j : 0 < alpha < 1 -> Forall unit_p ps -> (j < length ps)%nat ->
+  let o := nth j (holm_stepdown (sidak_adjust (mk_sidak alpha (INR (length ps)))) ps) dflt in
+  snd o = true <-> fst (fst o) <= alpha.
+Proof.
+  intros Ha Hu Hj o. set (adj := sidak_adjust (mk_sidak alpha (INR (length ps)))) in *.
+  destruct (stepdown_at adj ps j Hj) as [t Ht]. fold o in Ht. destruct o as [[pa aa] rj].
+  cbn [fst snd].
+  assert (Hc : forall j', (1 <= j' < 1 + length (sorted_asc ps))%nat -> 1 <= INR (length ps) - INR j' + 1).
+  { intros j' Hj'. rewrite sorted_asc_length in Hj'. rewrite <- minus_INR by lia.
+    assert (0 <= INR (length ps - j')) by apply pos_INR. lra. }
+  eapply (dn_rejected_iff_padj adj unit_p alpha 1 (sorted_asc ps));
+    [lra | | | apply sorted_asc_unit; exact Hu | apply sorted_asc_sorted | exact Ht].
+  - intros j' p Hj'. apply (sidak_threshold alpha Ha). apply Hc. exact Hj'.
+  - intros j' p Hj' Hp. apply (sidak_consistent alpha Ha); [apply Hc; exact Hj' | exact Hp].
 Qed.
